@@ -1763,7 +1763,7 @@ GENERATORS.update({"C13": g_c13})
 def g_c09(rng, tier, budget):
     b = 12000 if tier == "quick" else None
     yield from gen_byte_api(rng, tier, ["fwd", "rev"], b, with_count=True)
-    cfgs = MM_CFGS_QUICK if tier == "quick" else MM_CFGS_QUICK + [("alloconly", "sse2"), ("avx2ct", "avx2")]
+    cfgs = MM_CFGS_QUICK if tier == "quick" else MM_CFGS_QUICK + [("alloconly", "sse2"), ("avx2ct", "avx2"), ("noalloc", "sse2")]
     yield from gen_find(rng, tier, 1500 if tier == "quick" else 8000, cfgs=cfgs)
     n = 0
     for needle, hay in mm_pairs(rng, tier, 1500 if tier == "quick" else 8000):
@@ -1776,7 +1776,7 @@ def g_c09(rng, tier, budget):
         # the two feature builds (no `std`: compile-time dispatch; `+avx2` at compile time) also in
         # the quick run, on a sample of the same streams (thorough runs them in full)
         r2 = random.Random(rng.random())
-        for (variant, picked) in (("alloconly", "sse2"), ("avx2ct", "avx2")):
+        for (variant, picked) in (("alloconly", "sse2"), ("avx2ct", "avx2"), ("noalloc", "sse2")):
             for op, meta in gen_byte_api(r2, "quick", ["fwd", "rev"], 3000, with_count=True):
                 if meta.get("cfg") == "host" and op.split(" ", 1)[0] in ("memchrd", "countd") and r2.random() < 0.3:
                     parts = op.split(" ")
@@ -2026,3 +2026,25 @@ def gen_pair_long(rng, tier):
 
 
 _wrap("C12", gen_pair_long)
+
+
+def gen_noalloc_finders(rng, tier):
+    """the build with neither `std` nor `alloc` (CowBytes is a plain borrow): finder programs
+    without `into_owned`"""
+    for needle in rng.sample(structured_needles(rng, "quick"), 60):
+        L = len(needle)
+        hays = haystacks_for(rng, needle, "quick", sizes=[0, L, 2 * L + 3, 64, 130])
+        toks = []
+        for _ in range(6):
+            c = rng.random()
+            if c < 0.5:
+                toks.append("f:" + hx(rng.choice(hays)))
+            elif c < 0.7:
+                toks.append("i:" + hx(rng.choice(hays)))
+            else:
+                toks.append(rng.choice(["r", "k", "n"]))
+        yield ("finderops sse2 auto %s %s" % (hx(needle), ",".join(toks)), dict(cfg="noalloc", family="finderops-noalloc"))
+        yield ("finderrevops sse2 %s %s" % (hx(needle), ",".join(toks)), dict(cfg="noalloc", family="finderrevops-noalloc"))
+
+
+_wrap("C16", gen_noalloc_finders)
